@@ -3,8 +3,10 @@
 // message through the service's own mailbox, executes in the service context and is
 // acknowledged on a channel before the next one.  A scripted peer - itself a real
 // service.Service - receives the requests and answers on command through the real
-// Service.Response (or with a hand-made ServiceResponse for ids it never saw / bodies that
-// cannot be decoded).  Time is the virtual clock common.VerifSetNowMs.
+// Service.Response (or with a hand-made ServiceResponse for ids it never saw and for raw
+// field combinations: KRaw).  The callback's two arguments are recorded in full (classify):
+// which error, whether a message came with it, its dynamic type and every field.  Time is
+// the virtual clock common.VerifSetNowMs.
 package c01
 
 import (
@@ -264,63 +266,153 @@ func (p *peerSvc) command(ctx actor.Context, c *peerCmd) {
 	ctx.Send(p.w.svcPID, &barrier{ack: c.ack})
 }
 
-// respond answers request id with kind k through the most real path available:
-//   - a held request to a missing method, answered "no method": released to Dispatch, whose
-//     error reply goes through Service.Response (returns true: the reply is still to come);
-//   - a parked API completion (first use): invoked, the reply goes through the dispatcher's
-//     closure and Service.Response;
-//   - a request that reached ReceiveRequest: Service.Response;
-//   - otherwise (unknown / already answered id, undecodable body): a hand-made ServiceResponse.
-func (p *peerSvc) respond(ctx actor.Context, id int32, k hx.T) bool {
-	if req := p.held[id]; req != nil && k.Name == "KErr" && k.Int(0) == noMethodErr {
-		delete(p.held, id)
-		p.released[req] = true
-		ctx.Send(ctx.Self(), req)
-		return true
+// ---- the value of a reply: kinds (what the peer answers), wires (response fields), classes
+// (what the callback is told).  Mirrors Model.v: ty, body, wire, pmsg, kind, val, cls.
+
+const (
+	typeHello   = "servicemsgs.TestHello"
+	typeEmpty   = "servicemsgs.EmptyArg"
+	typeUnknown = "c01.NoSuchType"
+)
+
+// infoText maps an error text number to the text: 0 is the EMPTY text, -1 stands for the
+// dispatcher's own "no method: <route>".
+func infoText(e int64) string {
+	if e == 0 {
+		return ""
 	}
-	if cb := p.parked[id]; cb != nil && (k.Name == "KOk" || k.Name == "KNil" || k.Name == "KErr") {
-		delete(p.parked, id)
-		switch k.Name {
-		case "KOk":
-			cb(nil, &messages.TestHello{I: int32(k.Int(0))})
-		case "KNil":
-			cb(nil, nil)
-		case "KErr":
-			cb(errors.New(fmt.Sprintf("E:%d", k.Int(0))), nil)
-		}
-		return false
+	return fmt.Sprintf("E:%d", e)
+}
+
+// strOf maps a string number to the string, injectively: 0 is the EMPTY string; the others
+// are short ascii / multi-byte utf-8 / longer than 127 bytes (two-byte length prefix).
+func strOf(s int64) string {
+	if s == 0 {
+		return ""
 	}
-	req := p.reqs[id]
+	t := fmt.Sprintf("s%d", s)
+	switch s % 4 {
+	case 2:
+		t += " h\u00e9llo w\u00f6rld \u2713"
+	case 3:
+		t += " " + strings.Repeat("y", 300)
+	}
+	return t
+}
+
+func strIdx(t string) (int64, bool) {
+	if t == "" {
+		return 0, true
+	}
+	if t[0] != 's' {
+		return 0, false
+	}
+	end := 1
+	for end < len(t) && (t[end] == '-' && end == 1 || t[end] >= '0' && t[end] <= '9') {
+		end++
+	}
+	v, err := strconv.ParseInt(t[1:end], 10, 64)
+	if err != nil || v == 0 || strOf(v) != t {
+		return 0, false
+	}
+	return v, true
+}
+
+// msgOf: what the peer hands to Service.Response
+func msgOf(m hx.T) interface{} {
+	switch m.Name {
+	case "MNil":
+		return nil
+	case "MTypedNil":
+		return (*messages.TestHello)(nil)
+	case "MHello":
+		return &messages.TestHello{I: int32(m.Int(0)), S: strOf(m.Int(1))}
+	case "MEmpty":
+		return &messages.EmptyArg{}
+	}
+	panic("c01: unknown pmsg " + m.Name)
+}
+
+// handMade builds the ServiceResponse for kind k without going through the peer's Service:
+// for KRaw exactly the given fields, for KAns (ids the peer holds no request for) what
+// ResponseEx is specified to produce.
+func handMade(id int32, k hx.T) *messages.ServiceResponse {
+	res := &messages.ServiceResponse{ReqId: id}
 	switch k.Name {
-	case "KOk":
-		if req != nil {
-			p.Response(req, as.CodeSucc, "", &messages.TestHello{I: int32(k.Int(0))})
-			return false
+	case "KAns":
+		if code := k.Int(0); code != 0 {
+			res.ErrCode, res.ErrInfo = int32(code), infoText(k.Int(1))
+		} else if m := msgOf(k.Term(2)); m != nil {
+			b, tn, err := remote.Serialize(m, as.DefaultSerializeId)
+			if err != nil {
+				panic(err)
+			}
+			res.Type, res.Body = tn, b
 		}
-		b, tn, _ := remote.Serialize(&messages.TestHello{I: int32(k.Int(0))}, as.DefaultSerializeId)
-		ctx.Send(p.w.svcPID, &messages.ServiceResponse{ReqId: id, Type: tn, Body: b})
-	case "KNil":
-		if req != nil {
-			p.Response(req, as.CodeSucc, "", nil)
-			return false
+	case "KRaw":
+		w := k.Term(0)
+		res.ErrCode, res.ErrInfo = int32(w.Int(0)), infoText(w.Int(1))
+		switch t := w.Term(2).Name; t {
+		case "TyNone":
+		case "TyHello":
+			res.Type = typeHello
+		case "TyEmpty":
+			res.Type = typeEmpty
+		case "TyUnknown":
+			res.Type = typeUnknown
+		default:
+			panic("c01: unknown ty " + t)
 		}
-		ctx.Send(p.w.svcPID, &messages.ServiceResponse{ReqId: id})
-	case "KErr":
-		info := fmt.Sprintf("E:%d", k.Int(0))
-		if req != nil {
-			p.Response(req, as.CodeErrString, info, nil)
-			return false
-		}
-		ctx.Send(p.w.svcPID, &messages.ServiceResponse{ReqId: id, ErrCode: as.CodeErrString, ErrInfo: info})
-	case "KBad":
-		if k.Int(0) == 0 {
-			ctx.Send(p.w.svcPID, &messages.ServiceResponse{ReqId: id, Type: "c01.NoSuchType", Body: []byte{8, 1}})
-		} else {
-			ctx.Send(p.w.svcPID, &messages.ServiceResponse{ReqId: id, Type: "servicemsgs.TestHello", Body: []byte{0xff, 0xff, 0xff}})
+		switch b := w.Term(3); b.Name {
+		case "BFields":
+			bs, _, err := remote.Serialize(&messages.TestHello{I: int32(b.Int(0)), S: strOf(b.Int(1))}, as.DefaultSerializeId)
+			if err != nil {
+				panic(err)
+			}
+			res.Body = bs // zero bytes when both fields have their default value
+		case "BJunk":
+			res.Body = []byte{0xff, 0xff, 0xff}
+		default:
+			panic("c01: unknown body " + b.Name)
 		}
 	default:
 		panic("c01: unknown kind " + k.Name)
 	}
+	return res
+}
+
+// respond answers request id with kind k.  KAns goes through the most real path available:
+//   - a held request to a missing method, answered (error, "no method"): released to Dispatch,
+//     whose error reply goes through Service.Response (returns true: the reply is still to come);
+//   - a parked API completion (first use): invoked with (error | nil, message), the reply goes
+//     through the dispatcher's closure and Service.Response;
+//   - a request that reached ReceiveRequest: Service.Response(req, code, text, message);
+//   - otherwise (id the peer holds no request for): a hand-made ServiceResponse.
+// KRaw is always a hand-made ServiceResponse with exactly those fields.
+func (p *peerSvc) respond(ctx actor.Context, id int32, k hx.T) bool {
+	if k.Name == "KAns" {
+		code, info, m := k.Int(0), k.Int(1), k.Term(2)
+		if req := p.held[id]; req != nil && code != 0 && info == noMethodErr {
+			delete(p.held, id)
+			p.released[req] = true
+			ctx.Send(ctx.Self(), req)
+			return true
+		}
+		if cb := p.parked[id]; cb != nil {
+			delete(p.parked, id)
+			if code != 0 {
+				cb(errors.New(infoText(info)), msgOf(m))
+			} else {
+				cb(nil, msgOf(m))
+			}
+			return false
+		}
+		if req := p.reqs[id]; req != nil {
+			p.Response(req, int32(code), infoText(info), msgOf(m))
+			return false
+		}
+	}
+	ctx.Send(p.w.svcPID, handMade(id, k))
 	return false
 }
 
@@ -478,28 +570,53 @@ func (w *world) collect() *result {
 	return r
 }
 
+// classify turns the two arguments of a callback into a cls term.  Everything about the pair
+// is looked at: which error, whether a message came along, its dynamic type, every field.
 func classify(err error, msg interface{}) any {
-	switch {
-	case err == as.ErrTimeout:
-		return "RTimeout"
-	case err == app.ErrorNoService:
-		return "RNoService"
-	case err != nil && strings.HasPrefix(err.Error(), "no method"):
-		return hx.C("RErr", noMethodErr)
-	case err != nil && strings.HasPrefix(err.Error(), "E:"):
-		if v, e := strconv.ParseInt(err.Error()[2:], 10, 64); e == nil {
-			return hx.C("RErr", v)
+	if err == nil {
+		switch h := msg.(type) {
+		case nil:
+			return "RNil"
+		case *messages.TestHello:
+			if h == nil {
+				return "ROther"
+			}
+			if s, ok := strIdx(h.S); ok {
+				return hx.C("RReply", hx.C("VHello", int64(h.I), s))
+			}
+		case *messages.EmptyArg:
+			if h != nil {
+				return hx.C("RReply", "VEmpty")
+			}
 		}
-		return "RBad"
-	case err != nil:
-		return "RBad"
-	case msg == nil:
-		return "RNil"
+		return "ROther"
 	}
-	if h, ok := msg.(*messages.TestHello); ok {
-		return hx.C("RReply", int64(h.I))
+	var c any
+	switch text := err.Error(); {
+	case err == as.ErrTimeout:
+		c = "RTimeout"
+	case err == app.ErrorNoService:
+		c = "RNoService"
+	case strings.HasPrefix(text, "no method"):
+		c = hx.C("RErr", noMethodErr)
+	case text == "":
+		c = hx.C("RErr", int64(0))
+	case strings.HasPrefix(text, "E:"):
+		v, e := strconv.ParseInt(text[2:], 10, 64)
+		if e != nil || v == 0 || infoText(v) != text {
+			return "ROther"
+		}
+		c = hx.C("RErr", v)
+	case strings.HasPrefix(text, "response deserialize failed") || strings.HasPrefix(text, "proto:"):
+		// local decode error; the message that came with it (if any) is part of the class
+		return hx.C("RBad", msg != nil)
+	default:
+		return "ROther"
 	}
-	return "RBad"
+	if msg != nil {
+		return "ROther"
+	}
+	return c
 }
 
 func (w *world) callback(tag int64, prog []hx.T) func(error, interface{}) {
